@@ -541,6 +541,11 @@ func (g *graph) updateToValidateMap() error {
 				if startNodeOutputType == nil && endNodeInputType == nil {
 					continue
 				}
+				if len(endNode.mappings) > 0 && (startNodeOutputType == nil || endNodeInputType == nil) {
+					// an edge with field mappings carries parts of the value: it tells nothing about the
+					// type of a passthrough node at either end, and can only be validated once both are known
+					continue
+				}
 
 				// update toValidateMap
 				g.toValidateMap[startNode] = append(g.toValidateMap[startNode][:i], g.toValidateMap[startNode][i+1:]...)
